@@ -641,6 +641,24 @@ theorem run_spec {H : Key → Nat → Nat} (hH : HashOK H) (ops : List Op) (kh :
       simp only [h1]
       rw [ih kh' keys' h2 (fun op h => hops op (by simp [h]))]
 
+/-- the abstract type is defined on every history whose `Get`s ask for assigned indices; in particular on every
+    history without `Get` -/
+theorem specRun_isSome_of_no_get (ops : List Op) (keys : List Key) (h : ∀ op ∈ ops, ∀ i, op ≠ .get i) :
+    (specRun keys ops).isSome = true := by
+  induction ops generalizing keys with
+  | nil => rfl
+  | cons op rest ih =>
+    have hr : ∀ op ∈ rest, ∀ i, op ≠ .get i := fun o ho => h o (by simp [ho])
+    cases op with
+    | store k =>
+      by_cases hk : k ∈ keys <;> simp [specRun, specStep, hk, ih _ hr]
+    | lookup k =>
+      by_cases hk : k ∈ keys <;> simp [specRun, specStep, hk, ih _ hr]
+    | get i => exact absurd rfl (h (.get i) (by simp) i)
+    | number => simp [specRun, specStep, ih _ hr]
+    | reuse => simp [specRun, specStep, ih _ hr]
+    | clone => simp [specRun, specStep, ih _ hr]
+
 /-- Jenkins' one-at-a-time hash masked with `hashsize - 1` is a hash function into `[0, hashsize)` (any `hashsize > 0`) -/
 theorem jenkins_ok : HashOK jenkins := by
   intro k sz hsz
